@@ -25,7 +25,7 @@ LEVEL_TEXT = ("seeded search over access histories and row sets, each checked op
 LEVEL_NOTE = ("SQLite rows of hashable values only (unique() over unhashable values is not exercised); fetchmany(None)/partitions(None) sizes "
               "are driver-defined, so only their concatenation is compared; short reads are not injected (PEP 249 does not allow them)")
 TIERS = {
-    "quick": {"runs": 9000, "secs": 30},
+    "quick": {"runs": 18000, "secs": 30},
     "thorough": {"runs": 600000, "secs": 420, "hashseeds": [0, 1]},
 }
 SHRINK = ["shape", "prog", "faults"]
